@@ -3,6 +3,7 @@ from __future__ import annotations
 
 import ast
 import copy
+import os
 import traceback
 
 import z3
@@ -503,6 +504,8 @@ def verify_scenario(world: World, ct: Contract, sc: Scenario, budget_ms=400, max
         except z3.Z3Exception as ze:
             r.outcome = "unsupported"
             r.detail = f"z3 error: {ze}"
+            if os.environ.get("PYVC_DEBUG"):
+                traceback.print_exc()
         except RecursionError:
             r.outcome = "unsupported"
             r.detail = "host recursion limit"
